@@ -145,6 +145,7 @@ def run(ctx):
             ctx.report(f"a {len(p)}-octet plaintext (within the limit) does not round-trip with zip=DEF: {rt}", {"plaintext": label, "n": len(p)}, "roundtrip:structured")
     inflate_contract(ctx)
     end_to_end(ctx)
+    produced_stream(ctx)
     memory(ctx)
 
 
@@ -198,6 +199,46 @@ def end_to_end(ctx):
                 tok = jwe.encrypt_compact({"alg": alg, "enc": enc, "zip": "DEF"}, p, key, algorithms=E.ALL_NAMES)
                 if jwe.decrypt_compact(tok, key, algorithms=E.ALL_NAMES).plaintext != p:
                     ctx.report("encrypt/decrypt with zip=DEF changed the plaintext", {"alg": alg, "enc": enc, "n": n}, "jwe-zip:own-roundtrip")
+
+
+def produced_stream(ctx):
+    """What joserfc actually encrypts under zip=DEF, for plaintexts of every small length including 0: the content of a
+    produced token (opened independently: AES-GCM by hand) must be exactly the raw DEFLATE stream zlib.compress(p)[2:-4] -
+    a complete RFC 1951 stream that a strict inflater turns back into p."""
+    from joserfc import jwe
+    from cryptography.hazmat.primitives.ciphers.aead import AESGCM
+    import base64
+    rng = ctx.rng
+    raw = rng.randbytes(16)
+    key = K.key("oct16")
+    kb = key.raw_value
+    d64 = lambda t: base64.urlsafe_b64decode(t + "=" * (-len(t) % 4))  # noqa: E731
+    pts = [b"", b"a", b"ab", b"abc", b"hello", b"\x00" * 100, rng.randbytes(33), b"{}" * 500] + [p for _, p in structured_plaintexts(ctx)[:2]]
+    for p in pts:
+        for ser in ("compact", "flat", "general"):
+            hdr = {"alg": "dir", "enc": "A128GCM", "zip": "DEF"}
+            if ser == "compact":
+                tok = jwe.encrypt_compact(dict(hdr), p, key, algorithms=E.ALL_NAMES)
+                h, _, iv, ct, tg = tok.split(".")
+            else:
+                cls = jwe.FlattenedJSONEncryption if ser == "flat" else jwe.GeneralJSONEncryption
+                obj = cls(dict(hdr), p)
+                obj.add_recipient(None, key)
+                v = jwe.encrypt_json(obj, None, algorithms=E.ALL_NAMES)
+                h, iv, ct, tg = v["protected"], v["iv"], v["ciphertext"], v["tag"]
+            m = AESGCM(kb).decrypt(d64(iv), d64(ct) + d64(tg), h.encode())
+            ctx.count("produced-stream", (len(p), ser, m[:16]), True, f"len{min(len(p), 999)}")
+            want = zlib.compress(p)[2:-4]
+            dd = zlib.decompressobj(-15)
+            try:
+                back = dd.decompress(m)
+                strict_ok = dd.eof and not dd.unused_data and back == p
+            except zlib.error:
+                strict_ok = False
+            if m != want or not strict_ok:
+                ctx.report(f"the content encrypted for a {len(p)}-octet plaintext under zip=DEF ({ser}) is not the raw DEFLATE stream of the plaintext",
+                           {"plaintext": p[:40].hex(), "encrypted_content": m[:40].hex(), "expected": want[:40].hex(), "strict_inflate_ok": strict_ok},
+                           "produced-stream:" + ("not-deflate" if not strict_ok else "differs"))
 
 
 _CHILD = r'''
